@@ -34,8 +34,12 @@ func genSingleFault(r *rng, index int) *Spec {
 	// necessarily executed yet
 	for i := range sp.Hosts {
 		if sp.Hosts[i].Role == "ha" && i > 0 && sp.Hosts[i].Init == nil && r.chance(0.5) {
-			sp.Hosts[i].Init = &InitState{ApplyDelayMs: int64(r.pickInt(200, 500, 900))}
-			sp.World.ClientWriteMs = int64(r.pickInt(200, 300, 700))
+			// (well below the write interval: the replica keeps up, it is only never quite there)
+			d := int64(r.pickInt(200, 400, 700))
+			sp.Hosts[i].Init = &InitState{ApplyDelayMs: d}
+			if w := 2*d + int64(r.pickInt(100, 300)); sp.World.ClientWriteMs < w {
+				sp.World.ClientWriteMs = w
+			}
 		}
 	}
 	at := int64(15000) + int64(r.intn(int(c.TickMs+c.HealthMs)))
